@@ -171,6 +171,9 @@ let parse_op (toks : string list) : op =
   | ["dump"] -> OpDump
   | ["obj"; k] -> OpObj (n k)
   | ["queryall"] -> OpQueryAll
+  | ["movector"; d; sr] -> OpMoveCtor (n d, n sr)
+  | ["moveassign"; d; sr] -> OpMoveAssign (n d, n sr)
+  | ["destroy"; k] -> OpDestroy (n k)
   | ["queryall18"] -> OpQueryAll18
   | ["hashelf"; nm] -> OpHashElf (h nm)
   | ["hashgnu"; nm] -> OpHashGnu (h nm)
